@@ -12,7 +12,7 @@ git -C /repo archive HEAD | tar -x -C "$W" --one-top-level=repo
 if ! git -C "$W/repo" apply --unsafe-paths "$PATCH" 2>/dev/null; then
   (cd "$W/repo" && patch -p1 -s < "$PATCH") || { echo "PATCH-FAILED $PATCH"; rm -rf "$W"; exit 3; }
 fi
-VERIF_REPO="$W/repo" VERIF_OUT="$W/out" timeout 3000 /venv/bin/python /verif/vcheck.py "$PROP" --tier "$TIER" > "$W/out/stdout" 2> "$W/out/stderr"
+VERIF_MAX_VIOLATIONS="${VERIF_MAX_VIOLATIONS:-2}" VERIF_REPO="$W/repo" VERIF_OUT="$W/out" timeout 3000 /venv/bin/python "$(cd "$(dirname "$0")/.." && pwd)/vcheck.py" "$PROP" --tier "$TIER" > "$W/out/stdout" 2> "$W/out/stderr"
 RC=$?
 echo "== $NAME $PROP tier=$TIER exit=$RC"
 grep -E "^(VIOLATION|KNOWN-FINDING)" "$W/out/stdout" | cut -c1-200
